@@ -37,10 +37,14 @@ var table = map[string]struct {
 
 type base struct {
 	uses map[string][]rux.HandlerFunc
+	inst int // every registration uses a new controller instance: the routes must be bound to THAT instance
 }
 
+// curInst is the instance number of the controller handed to the most recent Resource call (register).
+var curInst int
+
 func (b base) act(ctx *rux.Context, name string) {
-	ctx.WriteString("[" + name + " id=" + ctx.Param("id") + "]")
+	ctx.WriteString(fmt.Sprintf("[%s id=%s inst=%d]", name, ctx.Param("id"), b.inst))
 }
 
 func mw(tag string) rux.HandlerFunc {
@@ -92,7 +96,8 @@ func (c config) resName() string {
 }
 
 func register(c config) *rux.Router {
-	b := base{}
+	curInst++
+	b := base{inst: curInst}
 	if c.uses {
 		b.uses = map[string][]rux.HandlerFunc{}
 		for a := range c.usesFor {
@@ -205,7 +210,7 @@ func checkProbe(r *rux.Router, c config, method, path string) string {
 	if c.uses && c.usesFor[a] {
 		want += "<uses:" + a + ">"
 	}
-	want += "[" + a + " id=" + id + "]"
+	want += fmt.Sprintf("[%s id=%s inst=%d]", a, id, curInst)
 	if rec.Code != 200 || rec.Body.String() != want {
 		return fmt.Sprintf("%s %q: served %d %q, documented table says %q", method, path, rec.Code, rec.Body.String(), want)
 	}
